@@ -29,6 +29,8 @@ def strat_adjust(tier):
         'affine_seed': st.integers(0, 10 ** 6),
         'subset': st.booleans(),
         'req_order': st.lists(st.integers(0, 10 ** 6), min_size=3, max_size=3),
+        # integer-valued parameters (a discrete prior): whole numbers, stored as int64 where the column has no NaN/inf
+        'int_params': st.sampled_from([False, False, True]),
     })
 
 
@@ -62,8 +64,11 @@ def run_adjust(case):
     for r, c, kind in case['bad_summ']:
         if (r % n) not in zero_rows:
             S[r % n, c % k] = VAL[kind]
+    if case.get('int_params'):
+        theta = np.round(theta * 3.0)
     for r, c, kind in case['bad_par']:
         theta[r % n, c % len(pn)] = VAL[kind]
+    int_cols = [bool(case.get('int_params')) and bool(np.isfinite(theta[:, j]).all()) for j in range(len(pn))]
     fin_rows = np.isfinite(S).all(axis=1)
     masks = [fin_rows & np.isfinite(theta[:, j]) for j in range(len(pn))]
     if min(mk.sum() for mk in masks) < k + 4:
@@ -72,7 +77,7 @@ def run_adjust(case):
 
     def run(Sm, obsm, names_req):
         m, sn = _model(obsm, k)
-        outputs = {p: theta[:, j].copy() for j, p in enumerate(pn)}
+        outputs = {p: (theta[:, j].astype(np.int64) if int_cols[j] else theta[:, j].copy()) for j, p in enumerate(pn)}
         for i, s in enumerate(sn):
             outputs[s] = Sm[:, i].copy()
         sample = Sample(method_name='test', outputs=outputs, parameter_names=list(pn))
@@ -131,6 +136,8 @@ def run_adjust(case):
             raise Violation('C17:adjust-not-affine-invariant', 'parameter %s changes by up to %.3g under an invertible affine map of the summaries; %s'
                             % (p, np.abs(a - b).max() if a.shape == b.shape else float('nan'), ctx))
     labels = ['k=%d' % k, 'params=%d' % len(pn)]
+    if any(int_cols):
+        labels.append('integer-typed-parameter')
     nonfin = (~fin_rows).any() or any((~np.isfinite(theta[:, j])).any() for j in range(len(pn)))
     if nonfin:
         labels.append('non-finite')
@@ -149,7 +156,10 @@ def strat_compare(tier):
     return st.fixed_dictionaries({
         'models': st.lists(st.fixed_dictionaries({'n': st.integers(1, 30), 'extra_sim': st.integers(0, 1000), 'sorted': st.booleans()}),
                            min_size=2, max_size=5),
-        'priors': st.one_of(st.none(), st.lists(st.floats(0.05, 5.0, allow_nan=False), min_size=5, max_size=5)),
+        # prior weights: positive, or exactly 0 for some models (excluded a priori), as an array or a plain list
+        'priors': st.one_of(st.none(), st.lists(st.floats(0.05, 5.0, allow_nan=False), min_size=5, max_size=5),
+                            st.lists(st.one_of(st.just(0.0), st.integers(0, 3).map(float), st.floats(0.05, 5.0, allow_nan=False)), min_size=5, max_size=5)),
+        'priors_form': st.sampled_from(['array', 'list']),
         'data_seed': st.integers(0, 10 ** 6), 'perm_seed': st.integers(0, 10 ** 6),
         # integer-valued (tied) discrepancies; cases whose ties at the cut belong to several models are ambiguous and skipped
         'ties': st.booleans(),
@@ -179,8 +189,17 @@ def run_compare(case):
                               discrepancy_name='d', n_sim=s['n'] + s['extra_sim']))
     priors = None if case['priors'] is None else np.array(case['priors'][:M])
     ctx = 'models=%r priors=%r data_seed=%d' % (specs, None if priors is None else priors.tolist(), case['data_seed'])
+    def pform(pr):
+        return None if pr is None else (list(map(float, pr)) if case.get('priors_form') == 'list' else np.array(pr, dtype=float))
+    n_min0 = min(s['n'] for s in specs)
+    if priors is not None:
+        # degenerate: every model that owns one of the jointly smallest discrepancies is excluded a priori (0/0)
+        order0 = np.argsort(np.concatenate(chunks), kind='stable')[:n_min0]
+        owner = np.concatenate([[i] * len(c) for i, c in enumerate(chunks)])
+        if priors[np.unique(owner[order0])].sum() == 0 or priors.sum() == 0:
+            return CaseResult(['all-contributing-models-excluded'], None)
     with must_not_raise(P, 'compare_models; ' + ctx):
-        got = np.asarray(compare_models(samples, None if priors is None else priors.copy()))
+        got = np.asarray(compare_models(samples, pform(priors)))
     n_min = min(s['n'] for s in specs)
     cut = np.sort(np.concatenate(chunks))[n_min - 1]
     below = np.array([(c < cut).sum() for c in chunks], dtype=float)
@@ -199,7 +218,7 @@ def run_compare(case):
         raise Violation('C17:compare-value', 'compare_models gives %r, share of the %d jointly smallest discrepancies / n_sim x prior gives %r; %s'
                         % (got.tolist(), n_min, ref.tolist(), ctx))
     perm = np.random.RandomState(case['perm_seed']).permutation(M)
-    got2 = np.asarray(compare_models([samples[i] for i in perm], None if priors is None else priors[perm]))
+    got2 = np.asarray(compare_models([samples[i] for i in perm], pform(None if priors is None else priors[perm])))
     if not np.allclose(got2, got[perm], rtol=1e-12, atol=1e-15):
         raise Violation('C17:compare-permutation', 'reordering the models by %r gives %r instead of %r; %s' % (perm.tolist(), got2.tolist(), got[perm].tolist(), ctx))
     labels = ['models=%d' % M]
@@ -212,6 +231,8 @@ def run_compare(case):
         labels.append('unsorted-discrepancies')
     if priors is not None:
         labels.append('prior-weights')
+        if (priors == 0).any():
+            labels.append('model-excluded-a-priori')
     if case.get('ties') and at.sum() > need:
         labels.append('ties-straddle-the-cut')
     return CaseResult(labels, True if unequal else None)
